@@ -343,8 +343,13 @@ def sync_run(case):
             taken.add(d)
         return as_outcome(delivered[d][1] if d in cancelled else delivered[d][0])
 
-    def resumed_by(d):
+    def resumed_by(d, via_cancel=False):
+        # coroutine: d loses its result when the driver's callback on it returns: when the cascade started by its firing
+        # is over — except during cancel(), where the callers of the function that was suspended on d are resumed only
+        # after d's callbacks have returned: there d holds None as soon as that (innermost) function has finished
+        st["settle"] = (d, frames[-1]) if (coro and via_cancel) else None
         resume(outcome(d))
+        st["settle"] = None
         if coro:
             taken.add(d)
 
@@ -362,14 +367,20 @@ def sync_run(case):
             try:
                 y = g.throw(exc) if exc is not None else g.send(send)
             except (StopIteration, OracleReturn) as e:
-                frames.pop()
+                done = frames.pop()
+                if st.get("settle") and st["settle"][1] is done:
+                    taken.add(st["settle"][0])
+                    st["settle"] = None
                 if not frames:
                     st["res"] = "R:" + canon(e.value)
                     return
                 send, exc = e.value, None
                 continue
             except (Exception, BaseErr) as e:   # noqa: BLE001 - the function's uncaught exception is its outcome
-                frames.pop()
+                done = frames.pop()
+                if st.get("settle") and st["settle"][1] is done:
+                    taken.add(st["settle"][0])
+                    st["settle"] = None
                 if not frames:
                     st["res"] = "R:" + canon_exc(e)
                     return
@@ -419,7 +430,7 @@ def sync_run(case):
             log.append(f"c{d}")
             fired.add(d)
             cancelled.add(d)
-            resumed_by(d)
+            resumed_by(d, True)
     snap = list(log)
     if st["res"] is None:
         for g in reversed(frames):
@@ -596,6 +607,13 @@ def gen(rng, tier):
 
 def corpus():
     return [
+        # a NESTED coroutine is suspended on D[0]; cancel -> D[0]'s canceller fires it; the outer coroutine, resumed only
+        # after the cancel call has unwound, awaits D[0] again: it has lost its result by then
+        {"variant": "coro", "body": ["seq", ["try", ["call", ["await", 0]], ["mark", 2]], ["await", 0]], "outs": [["err", 0]],
+         "cancs": [["succeed", 58]], "dsub": [False], "pre": [], "sched": [["cancel"]], "chains": ["none"]},
+        {"variant": "coro", "body": ["seq", ["try", ["call", ["call", ["await", 0]]], ["mark", 2]], ["await", 0]],
+         "outs": [["ok", 10]], "cancs": [["nothing"]], "dsub": [False], "pre": [], "sched": [["cancel"], ["fire", 0], ["cancel"]],
+         "chains": ["plus"]},
         # shared awaitables: a Deferred that had already failed awaited more than once (retry loop; two nested functions
         # sharing it), a pre-fired success awaited twice, a Deferred re-awaited after the function suspended again
         {"variant": "coro", "body": ["loop", 3, ["try", ["await", 0], ["mark", 1]]], "outs": [["err", 4]],
